@@ -16,6 +16,7 @@ Line-protocol driver for the C17 models (model files + the generated option tabl
   P <ini key=value,…>|<cli --flag[=v] …>|<keys>|<codes>   (global options: defaults ← [mypy] ← command line)
         → `k=v … dis={…} en={…}`
   F                                       → obligations with the flags/options that violate them
+  E                                       → the hand-written exemption lists of Model/ConfigTable.lean
 -/
 open Config Config.Table
 
@@ -163,6 +164,13 @@ def cmdF : String :=
     bad "list_options_typed" ((Gen.Options.attrs.filter (fun a => !listAttrTyped Gen.Options.iniKeys a)).map (fun a => str a.name)),
     bad "exemptions_live" (if exemptionsLiveB then [] else ["stale"])]
 
+def cmdE : String :=
+  let one (name : String) (xs : List Str) : String := s!"{name}:[" ++ ",".intercalate (xs.map str) ++ "]"
+  " ".intercalate [
+    one "cliOnlySpellings" (cliOnlySpellings.map Prod.fst), one "specialHandled" (specialHandled.map Prod.fst),
+    one "cliOnlySettings" (cliOnlySettings.map Prod.fst), one "knownCharSplit" knownCharSplit,
+    one "derivedPerModule" (derivedPerModule.map Prod.fst)]
+
 def step (line : String) : String :=
   let l := line.toList.reverse.dropWhile (fun c => c == '\n' || c == '\r') |>.reverse
   match l with
@@ -180,6 +188,7 @@ def step (line : String) : String :=
   | 'M' :: ' ' :: r => cmdM r
   | 'P' :: ' ' :: r => cmdP r
   | ['F'] => cmdF
+  | ['E'] => cmdE
   | _ => "bad-op"
 
 partial def loop (h : IO.FS.Stream) : IO Unit := do
